@@ -167,9 +167,13 @@ func (c *config) rewrite(node ast.Node) (ast.Node, error) {
 				tag.Name = strconv.Itoa(maxPlenc)
 
 			}
-			tags.Set(&tag)
-
-			f.Tag.Value = quote(tags.String())
+			// Append the new tag to the text of the existing tags rather than
+			// re-serialising them all, so they stay exactly as they were
+			existing, _ := strconv.Unquote(f.Tag.Value)
+			if existing != "" {
+				existing += " "
+			}
+			f.Tag.Value = quote(existing + tag.String())
 		}
 
 		return true
